@@ -183,7 +183,7 @@ class C25(Prop):
                 "out": out if kind in ("wf", "trailing") else None, "code": code}
 
     def gen(self, rng, tier):
-        k = {"quick": 1, "thorough": 6, "extended": 4}[tier]
+        k = {"quick": 1, "thorough": 6, "extended": 2}[tier]
         cases = []
         for _ in range(250 * k):
             cases.append({"f": "quote", "s": hostile(rng)})
@@ -207,7 +207,7 @@ class C25(Prop):
             cases.append({"f": "template", "env": self._env(rng)})
         for _ in range(300 * k):
             cases.append(self._gen_frame(rng))
-        nrun = {"quick": 40, "thorough": 200, "extended": 150}[tier]
+        nrun = {"quick": 30, "thorough": 200, "extended": 60}[tier]
         for conn in ("local", "base", "qm"):
             for _ in range(nrun):
                 cases.append({"f": "run", "conn": conn, "args": [hostile(rng) for _ in range(rng.randrange(0, 4))],
@@ -221,7 +221,7 @@ class C25(Prop):
                                                 ([1 << 20] if tier != "quick" else [])),
                               "kind": rng.choice(["text", "text", "ws", "uni"]), "nl": rng.random() < 0.5,
                               "rc": rng.choice([0, 1, 42, 255])})
-        nseq = {"quick": 10, "thorough": 40, "extended": 30}[tier]
+        nseq = {"quick": 9, "thorough": 40, "extended": 12}[tier]
         for j in range(nseq):
             steps = []
             for _ in range(rng.randrange(2, 6)):
@@ -462,6 +462,27 @@ class C25(Prop):
         res["count"] = self._count(counter)
         return res
 
+    async def _settle(self, d):
+        """Waits until no descendant process still refers to the case directory d (structural, not a fixed sleep)."""
+        import psutil
+        me, mine = psutil.Process(), None
+        quiet = 0
+        for _ in range(600):
+            busy = False
+            for ch in me.children(recursive=True):
+                try:
+                    cl = ch.cmdline()
+                except (psutil.NoSuchProcess, psutil.ZombieProcess):
+                    continue
+                if mine is None:
+                    mine = me.cmdline()
+                if any(d in a for a in cl) or cl == mine:
+                    busy = True
+            quiet = 0 if busy else quiet + 1
+            if quiet >= 2:
+                return
+            await self.asyncio.sleep(0.1)
+
     async def _seq(self, c):
         import shlex
         d = self._dir()
@@ -494,16 +515,17 @@ class C25(Prop):
                 except Exception as e:  # noqa
                     o = {"exc": type(e).__name__}
                 if st["k"] == "to":
-                    await self.asyncio.sleep(0.3)
+                    open(rel, "w").close()          # let every started copy finish, then count them
+                    await self._settle(d)
                     o["count"] = self._count(counter)
-                    open(rel, "w").close()
-                    await self.asyncio.sleep(0.5)
                 else:
                     o["count"] = self._count(counter)
                 o["markers"] = k[0] - m0
                 obs.append(o)
         finally:
             self.sfshell.random_name = old
+            for i in range(len(c["steps"])):        # never leave a blocked command behind
+                open(os.path.join(d, f"rel{i}"), "w").close()
             await conn.undeploy(False)
         return {"steps": obs}
 
